@@ -260,7 +260,23 @@ def ring_array(job, mc):
         x = mc.Bicomplex(*comps['x'])
         y = mc.Bicomplex(*comps['y'])
         res = x * y + x
+        # item assignment of an ordinary number c (= c + j0) and of a Bicomplex element
+        w = mc.Bicomplex(comps['x'][0].copy(), comps['x'][1].copy())
+        w[0] = 0.75
+        w2 = mc.Bicomplex(comps['x'][0].copy(), comps['x'][1].copy())
+        w2[1] = y[0]
+        w3 = mc.Bicomplex(comps['x'][0].copy(), comps['x'][1].copy())
+        w3[np.array([False, True])] = 0.0
     job.paths += 1
+    info_s = dict(key='C12:ring:setitem', kind='bicomplex', op='setitem')
+    z = lambda t: of_symc(t)  # noqa
+    facts = [('w[0] = c gives c + j0', z(np.asarray(w.z1)[0]).eq(C(z3.RealVal('3/4'), z3.RealVal(0))) , z(np.asarray(w.z2)[0]).eq(C(z3.RealVal(0), z3.RealVal(0)))),
+             ('w[0] = c leaves w[1]', z(np.asarray(w.z1)[1]).eq(z(comps['x'][0][1])), z(np.asarray(w.z2)[1]).eq(z(comps['x'][1][1]))),
+             ('w[1] = y[0]', z(np.asarray(w2.z1)[1]).eq(z(comps['y'][0][0])), z(np.asarray(w2.z2)[1]).eq(z(comps['y'][1][0]))),
+             ('w[mask] = 0', z(np.asarray(w3.z1)[1]).eq(C(z3.RealVal(0), z3.RealVal(0))), z(np.asarray(w3.z2)[1]).eq(C(z3.RealVal(0), z3.RealVal(0)))),
+             ('w[mask] = 0 leaves the rest', z(np.asarray(w3.z1)[0]).eq(z(comps['x'][0][0])), z(np.asarray(w3.z2)[0]).eq(z(comps['x'][1][0])))]
+    for label, c1, c2 in facts:
+        job.prove('item assignment: %s' % label, z3.And(c1, c2), [], info_s)
     job.confirm('shape', res.shape == (2,))
     for e in range(2):
         x1, x2 = of_symc(comps['x'][0][e]), of_symc(comps['x'][1][e])
@@ -975,6 +991,11 @@ def numeric_deviation(mc, op, k=0, trials=40, seed=0):
             else:
                 res **= 2
                 fu, fv = u * u, v * v
+        elif op == 'setitem':
+            xa = mc.Bicomplex(np.array([z1, y1]), np.array([z2, y2]))
+            xa[0] = 0.75
+            res = mc.Bicomplex(np.asarray(xa.z1)[0], np.asarray(xa.z2)[0])
+            fu = fv = 0.75
         elif op == 'neg':
             res, fu, fv = -x, -u, -v
         elif op == 'conjugate':
